@@ -30,7 +30,7 @@ def configs(tier, seed):
   return cfgs
 
 
-def gen_history(r, lag, short):
+def gen_history(r, lag, short, big=False):
   nm = r.randint(2, 5)
   metrics = ['m%d' % i for i in range(nm)]
   if r.random() < 0.15:
@@ -47,6 +47,12 @@ def gen_history(r, lag, short):
       base = r.choice([1000000 - 100, 1000000 - 100, 1000000 - 100, 1000000, 1000000 + 50]) if not lag else r.choice([1000000 - 100, 1000000 - 100, 1000000 + 5])
       ops.append(('store', r.choice(metrics), base + r.randrange(4) + (0.5 if r.random() < 0.1 else 0)))
   ndr = r.randint(2, 4) if short else r.randint(nm, 2 * nm + 2)
+  if big:
+    # one series with a very long queue (a stalled disk): thousands of distinct timestamps
+    m = r.choice(metrics)
+    base = 1000000 - 90000
+    ops = [('store', m, base + k) for k in range(r.choice([1000, 1001, 1500]))] + ops
+    ndr += 2
   return ops, ndr
 
 
@@ -168,6 +174,16 @@ def run_config(cfg, res):
     for k in range(20 if cfg['tier'] == 'quick' else 80):
       one(S.RandomPolicy(gen.rng(r.random(), 'rp'), p=r.choice([0.05, 0.2, 0.5])), 'random')
     res.sample(dict(cfg=cfg['name'], ops=ops[:10], drains=ndr), cap=2)
+    if i == nh[0] + nh[1] - 1:
+      # a very long queue, under a handful of schedules
+      ops, ndr = gen_history(r, cfg['lag'], True, big=True)
+      seen = set()
+      hk = hash(repr(ops))
+      res.count('histories_with_a_queue_of_1000_or_more')
+      one(S.DeviationPolicy({}), 'baseline')
+      one(S.DeviationPolicy({0: 1}), 'mirror')
+      for _ in range(2):
+        one(S.RandomPolicy(gen.rng(r.random(), 'rp'), p=0.02), 'random')
 
 
 def finalize(merged, tier):
